@@ -32,9 +32,12 @@ SetupStep ==
   /\ last'.res = "ok"
   /\ sidx' = sidx + 1 /\ UNCHANGED lin
 
+\* H.hint (optional) proposes one order; with a hint the search is a single path, without it
+\* every order compatible with real time is explored
 Linearize(i) ==
   /\ sidx > Len(H.setup)
   /\ i \notin lin
+  /\ (H.hint = <<>> \/ i = H.hint[Cardinality(lin) + 1])
   /\ \A k \in 1..N : H.calls[k].ret < H.calls[i].inv => k \in lin
   /\ Do(CallOf(H.calls[i].call))
   /\ (last'.res = "ok") = H.calls[i].ok
